@@ -448,5 +448,7 @@ def main(tier):
     import recordfull
     rep.attempt(recordfull.check, rep, mod)
     rep.attempt(c17.check_hashmask_field, rep, mod)      # stale buckets above a shrunken mask make the output depend on the context's previous contents
+    import c05
+    rep.attempt(c05.check_hashfill_bound, rep, mod)      # a word hashed past the dictionary contains whatever the buffer held before
     rep.attempt(provenance.check_undef, rep, None, 'ALL', 130)
     return rep.finish()
